@@ -248,6 +248,9 @@ def run(ck: Checker) -> None:
     ck.guard("R-SINGLETON-RT", lambda: r_singleton_rt(ck))
     ck.guard("R-FMT-PAIR", lambda: r_fmt_pair(ck))
     ck.guard("R-IDX-PAIR", lambda: r_idx_pair(ck))
+    # options of a failed / finished call must not leak into the next (otherwise a later plain dump is not readable in a fresh process)
+    from .c16 import find_slots, r_opt_pair
+    ck.guard("R-OPT-PAIR", lambda: r_opt_pair(ck, find_slots(ck)))
     ck.require_count("R-DESER-ID", 2)
     ck.require_count("R-TAG-TABLE", 3)
     ck.require_count("R-SINGLETON-RT", 3)
